@@ -367,6 +367,11 @@ def import_corpus():
     add("define-fun-scope", D + "(define-fun g ((x Int) (a Bool)) Int (ite a x y))(assert (= (g y b) (g x a)))")
     add("define-fun-param-not-leaking", D + "(define-fun g ((y Int)) Int (+ y 1))(assert (< (g x) y))")
     add("define-fun-constant", D + "(define-fun k () Int (+ x 1))(assert (< k y))")
+    add("define-fun-scoped-redefinition", D + "(push 1)(define-fun g ((t Int)) Int (+ t 1))(assert (> (g x) 0))(pop 1)"
+        "(define-fun g ((t Int)) Int (- t 1))(assert (> (g x) 0))(assert (> (g (g y)) 20))")
+    add("define-fun-scoped-redefinition-arity", D + "(push 1)(define-fun g ((t Int)) Int (+ t 1))(assert (> (g x) 0))(pop 1)"
+        "(define-fun g ((t Int) (s Int)) Int (- t s))(assert (> (g x y) 0))")
+    add("define-fun-constant-redefinition", D + "(push 1)(define-fun k () Int 10)(assert (< x k))(pop 1)(define-fun k () Int 20)(assert (< y k))")
     add("define-fun-nested", D + "(define-fun g ((t Int)) Int (+ t 1))(define-fun g2 ((t Int)) Int (g (g t)))(assert (= (g2 x) y))")
     add("define-fun-bool", D + "(define-fun both ((p Bool) (q Bool)) Bool (and p q))(assert (both a (both b c)))")
     add("define-fun-quoted-params", D + "(define-fun g ((|a b| Int) (|c d| Bool)) Int (ite |c d| |a b| x))(assert (= (g y a) z))")
